@@ -69,7 +69,7 @@ theorem size_le_max (p : List UInt8) (cap : Nat) (o : Pkt) (ho : parse p = some 
     simp only [ipOK, Bool.and_eq_true, maxReplySize] at h1
     have hl : out.length ≤ 1048 := by
       exact of_decide_eq_true h1.1.2
-    refine ⟨by simp only [maxRejectPacketSize]; omega, ?_, by omega⟩
+    refine ⟨by simp only [maxRejectPacketSize, Gen.iputil_MaxRejectPacketSize]; omega, ?_, by omega⟩
     intro hc; rw [hc] at hr; simp [parse] at hr
 
 /-- `rejectOutside` sends exactly what `CreateRejectPacket` built: its empty / too-big guards never fire. -/
